@@ -20,7 +20,7 @@ ALLOWED = {"lru_time_cache::LruCache::<Key, Value>::with_expiry_duration",
 
 
 def check(env, rep, tier):
-    include(rep, env, tier, "c12", ("C12.1",), "C20.3",
+    include(rep, env, tier, "c12", ("C12.1", "C12.2"), "C20.3",
             "'expired state is reclaimed / nothing outlives the configured duration': the expiring cache is the only place the handler keeps "
             "per-transfer state (no second map, static or interior-mutable field beside it that expiry never touches)")
     configs = ["default"] if tier == "quick" else ["default", "udp"]
